@@ -201,20 +201,20 @@ theorem c11_earliest_step (env : Env) (bs : Bytes) (c : Code) (idx : Nat)
     (h : parseTop env bs = .err c idx) (hnf : ∀ s, finish env s ≠ .error c)
     (hexp : ∀ s, feed env init 0 (bs.take (idx - 1)) = .ok (s, idx - 1) → ExpOK env s)
     (hside : ∀ s, feed env init 0 (bs.take (idx - 1)) = .ok (s, idx - 1) → SideOK env s) :
-    ∃ k ys v, (k = 1 ∨ (k = 4 ∧ (c = .InvalidEscape ∨ c = .LoneLeadingSurrogateInHexEscape))) ∧
+    ∃ k ys v, (k = 1 ∨ (k = 4 ∧ (c = .InvalidEscape ∨ c = .LoneLeadingSurrogateInHexEscape) ∧
+        ∃ x, bs.take (idx - 4) = x ++ [0x5c, 0x75])) ∧
       parseTop env (bs.take (idx - k) ++ ys) = .ok v := by
   obtain ⟨p, b, rest, s1, rfl, hf, hst, rfl⟩ := parse_err_step env bs c idx h hnf
   have hp : (p ++ b :: rest).take (p.length + 1 - 1) = p := by simp
   have hfeed : feed env init 0 ((p ++ b :: rest).take (p.length + 1 - 1)) = .ok (s1, p.length + 1 - 1) := by
     rw [hp, hf.to_feed 0]; simp
   rcases earliest_core env p b s1 c .incl hf hst (hexp s1 hfeed) (hside s1 hfeed) with
-    ⟨ys, v, hv⟩ | ⟨hcode, hlen, ys, v, hv⟩
+    ⟨ys, v, hv⟩ | ⟨hcode, hlen, ⟨x, hx⟩, ys, v, hv⟩
   · exact ⟨1, ys, v, Or.inl rfl, by rw [hp]; exact hv⟩
-  · refine ⟨4, ys, v, Or.inr ⟨rfl, hcode⟩, ?_⟩
-    have : (p ++ b :: rest).take (p.length + 1 - 4) = p.take (p.length - 3) := by
+  · have : (p ++ b :: rest).take (p.length + 1 - 4) = p.take (p.length - 3) := by
       have : p.length + 1 - 4 = p.length - 3 := by omega
       rw [this, List.take_append_of_le_length (by omega)]
-    rw [this]; exact hv
+    exact ⟨4, ys, v, Or.inr ⟨rfl, hcode, x, by rw [this]; exact hx⟩, by rw [this]; exact hv⟩
 
 open SJ.Proofs.Earliest in
 /-- **C11 (earliest).** If parsing fails with an error that is not Eof-classified and not the
@@ -226,7 +226,8 @@ open SJ.Proofs.Earliest in
 theorem c11_earliest (env : Env) (bs : Bytes) (c : Code) (idx : Nat)
     (h : parseTop env bs = .err c idx) (hc : classify c ≠ .eof) (hn : c ≠ .NumberOutOfRange)
     (hside : ∀ s, feed env init 0 (bs.take (idx - 1)) = .ok (s, idx - 1) → SideOK env s) :
-    ∃ k ys v, (k = 1 ∨ (k = 4 ∧ (c = .InvalidEscape ∨ c = .LoneLeadingSurrogateInHexEscape))) ∧
+    ∃ k ys v, (k = 1 ∨ (k = 4 ∧ (c = .InvalidEscape ∨ c = .LoneLeadingSurrogateInHexEscape) ∧
+        ∃ x, bs.take (idx - 4) = x ++ [0x5c, 0x75])) ∧
       parseTop env (bs.take (idx - k) ++ ys) = .ok v := by
   have hnf : ∀ s, finish env s ≠ .error c := by
     intro s hfin
@@ -249,16 +250,16 @@ open SJ.Proofs.Earliest in
     side condition at all — the bytes before the reported one always have an accepted continuation. -/
 theorem c11_earliest_ignored (env : Env) (henv : env.tgt = .ignored) (bs : Bytes) (c : Code) (idx : Nat)
     (h : parseTop env bs = .err c idx) (hc : classify c ≠ .eof) :
-    ∃ k ys v, (k = 1 ∨ (k = 4 ∧ c = .InvalidEscape)) ∧
+    ∃ k ys v, (k = 1 ∨ (k = 4 ∧ c = .InvalidEscape ∧ ∃ x, bs.take (idx - 4) = x ++ [0x5c, 0x75])) ∧
       parseTop env (bs.take (idx - k) ++ ys) = .ok v := by
   have hnf : ∀ s, finish env s ≠ .error c :=
     fun s hfin => hc (finish_eof_clean_ignored env henv s c hfin)
   obtain ⟨k, ys, v, hk, hv⟩ := c11_earliest_step env bs c idx h hnf
     (fun s _ => expOK_ignored env henv s) (fun s _ => sideOK_ignored env henv s)
   refine ⟨k, ys, v, ?_, hv⟩
-  rcases hk with rfl | ⟨rfl, hcode | hcode⟩
+  rcases hk with rfl | ⟨rfl, hcode | hcode, hx⟩
   · exact Or.inl rfl
-  · exact Or.inr ⟨rfl, hcode⟩
+  · exact Or.inr ⟨rfl, hcode, hx⟩
   · -- the surrogate rule is not applied to skipped content
     exfalso
     obtain ⟨p, b, rest, s1, rfl, hf, hst, rfl⟩ := parse_err_step env bs c idx h hnf
@@ -270,7 +271,8 @@ theorem c11_earliest_ignored (env : Env) (henv : env.tgt = .ignored) (bs : Bytes
 theorem c11_earliest_str_ap (env : Env) (hsrc : env.src = .str) (hap : env.cfg.ap = true)
     (bs : Bytes) (c : Code) (idx : Nat)
     (h : parseTop env bs = .err c idx) (hc : classify c ≠ .eof) (hn : c ≠ .NumberOutOfRange) :
-    ∃ k ys v, (k = 1 ∨ (k = 4 ∧ (c = .InvalidEscape ∨ c = .LoneLeadingSurrogateInHexEscape))) ∧
+    ∃ k ys v, (k = 1 ∨ (k = 4 ∧ (c = .InvalidEscape ∨ c = .LoneLeadingSurrogateInHexEscape) ∧
+        ∃ x, bs.take (idx - 4) = x ++ [0x5c, 0x75])) ∧
       parseTop env (bs.take (idx - k) ++ ys) = .ok v := by
   refine c11_earliest env bs c idx h hc hn (fun s _ => ?_)
   unfold SJ.Proofs.Earliest.SideOK
@@ -287,7 +289,7 @@ theorem c11_earliest_grammar (env : Env) (bs : Bytes) (c : Code) (idx : Nat)
     (hside : ∀ s, feed env init 0 (bs.take (idx - 1)) = .ok (s, idx - 1) → SJ.Proofs.Earliest.SideOK env s) :
     ∃ ys v, parseTop env (bs.take (idx - 1) ++ ys) = .ok v := by
   obtain ⟨k, ys, v, hk, hv⟩ := c11_earliest env bs c idx h hc hn hside
-  rcases hk with rfl | ⟨_, hcode | hcode⟩
+  rcases hk with rfl | ⟨_, hcode | hcode, _⟩
   · exact ⟨ys, v, hv⟩
   · exact absurd hcode h1
   · exact absurd hcode h2
@@ -296,7 +298,8 @@ theorem c11_earliest_grammar (env : Env) (bs : Bytes) (c : Code) (idx : Nat)
 
 /-- `[1,]`: the error is reported at byte 4 (`]`); the first three bytes continue to `[1,null]` -/
 example : ∃ k ys v, (k = 1 ∨ (k = 4 ∧ (Code.TrailingComma = .InvalidEscape ∨
-      Code.TrailingComma = .LoneLeadingSurrogateInHexEscape))) ∧
+      Code.TrailingComma = .LoneLeadingSurrogateInHexEscape) ∧
+      ∃ x, ([0x5b, 0x31, 0x2c, 0x5d] : Bytes).take (4 - 4) = x ++ [0x5c, 0x75])) ∧
     parseTop envS (([0x5b, 0x31, 0x2c, 0x5d] : Bytes).take (4 - k) ++ ys) = .ok v :=
   c11_earliest envS [0x5b, 0x31, 0x2c, 0x5d] .TrailingComma 4 rfl (by decide) (by decide)
     (fun s hs => by cases hs; trivial)
@@ -306,7 +309,8 @@ example : parseTop envS ([0x5b, 0x31, 0x2c] ++ [0x6e, 0x75, 0x6c, 0x6c, 0x5d]) =
     `"\u` (= 7 − 4 bytes) continues to `"\u0000"` -/
 example : parseTop envS [0x22, 0x5c, 0x75, 0x31, 0x32, 0x47, 0x34, 0x22] = .err .InvalidEscape 7 := rfl
 example : ∃ k ys v, (k = 1 ∨ (k = 4 ∧ (Code.InvalidEscape = .InvalidEscape ∨
-      Code.InvalidEscape = .LoneLeadingSurrogateInHexEscape))) ∧
+      Code.InvalidEscape = .LoneLeadingSurrogateInHexEscape) ∧
+      ∃ x, ([0x22, 0x5c, 0x75, 0x31, 0x32, 0x47, 0x34, 0x22] : Bytes).take (7 - 4) = x ++ [0x5c, 0x75])) ∧
     parseTop envS (([0x22, 0x5c, 0x75, 0x31, 0x32, 0x47, 0x34, 0x22] : Bytes).take (7 - k) ++ ys) = .ok v :=
   c11_earliest envS _ .InvalidEscape 7 rfl (by decide) (by decide)
     (fun s hs => by cases hs; intro _ h; exact absurd rfl h)
@@ -315,7 +319,8 @@ example : parseTop envS ([0x22, 0x5c, 0x75] ++ [0x30, 0x30, 0x30, 0x30, 0x22]) =
 /-- skipped content, `{"a":1,}`: reported at byte 8 (`}`), `{"a":1,` continues with `"":null}` -/
 def envI : Env := { cfg := {}, src := .slice, tgt := .ignored }
 example : parseTop envI [0x7b, 0x22, 0x61, 0x22, 0x3a, 0x31, 0x2c, 0x7d] = .err .KeyMustBeAString 8 := rfl
-example : ∃ k ys v, (k = 1 ∨ (k = 4 ∧ Code.KeyMustBeAString = .InvalidEscape)) ∧
+example : ∃ k ys v, (k = 1 ∨ (k = 4 ∧ Code.KeyMustBeAString = .InvalidEscape ∧
+      ∃ x, ([0x7b, 0x22, 0x61, 0x22, 0x3a, 0x31, 0x2c, 0x7d] : Bytes).take (8 - 4) = x ++ [0x5c, 0x75])) ∧
     parseTop envI (([0x7b, 0x22, 0x61, 0x22, 0x3a, 0x31, 0x2c, 0x7d] : Bytes).take (8 - k) ++ ys) = .ok v :=
   c11_earliest_ignored envI rfl _ .KeyMustBeAString 8 rfl (by decide)
 example : parseTop envI ([0x7b, 0x22, 0x61, 0x22, 0x3a, 0x31, 0x2c] ++
